@@ -327,7 +327,8 @@ def run_dimfiles(desc):
     fmt = desc["fmt"]
     with tempfile.TemporaryDirectory(prefix="verif_c18_") as tmp:
         files, sheets = {}, {}
-        for d, sp in zip(U["dims"], desc["specs"]):
+        real = [d for d in U["dims"] if not d.get("alias_of")]
+        for d, sp in zip(real, desc["specs"]):
             path = os.path.join(tmp, f"dim_{d['letter']}.{'csv' if fmt == 'csv' else 'xlsx'}")
             named_sheet = fmt == "excel" and desc["sheets"] == "named"
             # sheet names are free text as well: '0', '1', '2020' are names, not positions
@@ -336,6 +337,13 @@ def run_dimfiles(desc):
             files[d["name"]] = path
             if named_sheet:
                 sheets[d["name"]] = sname
+        for d in U["dims"]:
+            if d.get("alias_of"):
+                # a second dimension that takes its items from the same file (vintages from the years file)
+                src = build.udim(U, d["alias_of"])
+                files[d["name"]] = files[src["name"]]
+                if src["name"] in sheets:
+                    sheets[d["name"]] = sheets[src["name"]]
         defs = dim_defs(U)
         if fmt == "csv":
             reader = fd.CSVDimensionReader(dimension_files=files)
@@ -361,14 +369,18 @@ def run_dimfiles(desc):
             else:
                 raise Violation("two-dimensional-dimension-file-accepted", "2x2 table read as dimension items")
     require(list(ds.letters) == gen.uletters(U), "dimension-order", str(ds.letters))
-    for d, sp in zip(U["dims"], desc["specs"]):
+    specs_by_letter = {d["letter"]: sp for d, sp in zip(real, desc["specs"])}
+    for d in U["dims"]:
+        sp = specs_by_letter.get(d.get("alias_of") or d["letter"])
         got = ds[d["letter"]]
         require(got.name == d["name"], "dimension-name", d["letter"])
         require(list(got.items) == list(d["items"]), "dimension-items", f"{d['letter']} ({sp}): {got.items} vs {d['items']}")
         tp = build._DT[d["dtype"]]
         require(all(type(i) is tp for i in got.items) and got.dtype is tp, "dimension-item-type", f"{d['letter']}: {[type(i).__name__ for i in got.items]}")
     variants = {(sp["orient"], sp["header"]) for sp in desc["specs"]}
-    return {"nontrivial": len(variants) >= 2 or desc["sheets"] == "first", "classes": [f"fmt:{fmt}", f"sheets:{desc['sheets']}"] + [f"{o}-{'header' if h else 'bare'}" for o, h in sorted(variants)]}
+    al = [d for d in U["dims"] if d.get("alias_of")]
+    acl = ["shared-file" + (":other-dtype" if any(d["dtype"] != build.udim(U, d["alias_of"])["dtype"] for d in al) else "")] if al else []
+    return {"nontrivial": len(variants) >= 2 or desc["sheets"] == "first" or bool(al), "classes": [f"fmt:{fmt}", f"sheets:{desc['sheets']}"] + [f"{o}-{'header' if h else 'bare'}" for o, h in sorted(variants)] + acl}
 
 
 @st.composite
@@ -392,6 +404,16 @@ def dimfile_cases(draw):
                 d["items"][pos] = lab
     specs = [{"orient": draw(st.sampled_from(["row", "col"])), "header": draw(st.booleans()), "decoy_first": draw(st.booleans()), "sheetname": draw(st.integers(0, 3))} for _ in U["dims"]]
     fmt = draw(st.sampled_from(["csv", "excel", "excel"]))
+    if draw(st.integers(0, 2)) == 0:
+        # further dimensions whose items come from a file another dimension uses too (no header line in that
+        # file, since a header names one dimension); the declared type may differ: years as int and as str
+        for k in range(draw(st.integers(1, 2))):
+            si = draw(st.integers(0, len(specs) - 1))
+            src = U["dims"][si]
+            specs[si]["header"] = False
+            dt = draw(st.sampled_from(["int", "str"])) if src["dtype"] == "int" else "str"
+            items = [str(i) for i in src["items"]] if (dt == "str" and src["dtype"] == "int") else list(src["items"])
+            U["dims"].append({"letter": "xy"[k], "name": f"Alias {k} of {src['name']}", "items": items, "dtype": dt, "alias_of": src["letter"]})
     return {"universe": U, "specs": specs, "fmt": fmt, "sheets": draw(st.sampled_from(["named", "first"])) if fmt == "excel" else "n/a"}
 
 
